@@ -6,7 +6,8 @@ Require Import Base RW RWProofs.
    first WriteHeader/Write/Flush makes every hook registered so far run once, in reverse
    order, each seeing status 0, then exactly one status line reach the underlying writer
    (the given code, 200 for Write/Flush); later operations send no status line and run no
-   hook; Status/Written/Size answer what the underlying writer has actually seen (first
+   hook; a hook may panic: the operation then ends there with nothing sent, no hook ever
+   runs again, and the next WriteHeader/Write/Flush sends the status line; Status/Written/Size answer what the underlying writer has actually seen (first
    status, sum of the byte counts it accepted); Write forwards its bytes unchanged unless
    the method is HEAD, in which case nothing is forwarded.
    For every method and every sequence of operations with non-zero status codes the model of
@@ -28,13 +29,26 @@ Theorem C13_head_forwards_no_body : forall ops outs,
   spec_ok true ops outs = true -> forall bs n, ~ In (UWrite bs n) (concat outs).
 Proof. intros ops outs H. exact (spec_head_no_body ops outs jinit H). Qed.
 
+(* the before functions run during at most one operation *)
+Theorem C13_hooks_in_one_operation : forall head ops outs,
+  spec_ok head ops outs = true -> count has_hook outs <= 1.
+Proof. exact spec_hooks_once. Qed.
+
 (* non-vacuity: a concrete history with hooks, a late WriteHeader and a short write *)
 Example C13_example :
-  run false [OBefore 1; OBefore 2; OStatus; OWrite [104; 105]%N 1%N; OWriteHeader 404; OBefore 3; OSize; OStatus; OWritten]
+  run false [OBefore 1 false; OBefore 2 false; OStatus; OWrite [104; 105]%N 1%N; OWriteHeader 404; OBefore 3 false; OSize; OStatus; OWritten]
   = [[]; []; [AStatus 0]; [EHook 2 0; EHook 1 0; UWriteHeader 200; UWrite [104; 105]%N 1%N]; []; []; [ASize 1]; [AStatus 200]; [AWritten true]].
+Proof. vm_compute. reflexivity. Qed.
+
+(* a before function that panics (finding F20): nothing is sent by that operation, Status stays 0,
+   the newest hook ran, the older one never runs, and the next Write sends 200 and the body *)
+Example C13_example_panicking_hook :
+  run false [OBefore 1 false; OBefore 2 true; OWriteHeader 201; OStatus; OWrite [104]%N 1%N; OStatus]
+  = [[]; []; [EHook 2 0; EPanic]; [AStatus 0]; [UWriteHeader 200; UWrite [104]%N 1%N]; [AStatus 200]].
 Proof. vm_compute. reflexivity. Qed.
 
 Redirect "assum/C13.1" Print Assumptions C13_model_meets_spec.
 Redirect "assum/C13.2" Print Assumptions C13_at_most_one_status.
 Redirect "assum/C13.3" Print Assumptions C13_status_before_body.
 Redirect "assum/C13.4" Print Assumptions C13_head_forwards_no_body.
+Redirect "assum/C13.5" Print Assumptions C13_hooks_in_one_operation.
